@@ -364,7 +364,7 @@ fn minimise(
     'outer: loop {
         let cands = check.shrink(&cur);
         for c in cands {
-            if started.elapsed().as_secs() >= budget_s || tried >= 3000 {
+            if started.elapsed().as_secs() >= budget_s || tried >= 800 {
                 break 'outer;
             }
             let key = c.to_string();
